@@ -30,6 +30,7 @@ using namespace verif;
 //        returns true at offset hit_rem (< 4096), which ends the job long before the range is exhausted
 struct Cfg {
   uint64_t variant, type, threads, start, count, block, hit_mod, hit_rem, reps, rendezvous, progress, big;
+  uint64_t auto_threads = 0; // 1: pass num_threads = 0 to the call (threads holds the machine's core count)
 };
 static const char* kVariant[3] = {"range", "blocks", "multi"};
 static const char* kType[5] = {"u8", "u16", "u32", "u64", "s64"};
@@ -82,13 +83,13 @@ static void run_typed(const Cfg& c) {
     uint64_t ret_off = 0;
     std::vector<uint64_t> ret_set;
     if (c.variant == 0) {
-      IntT r = phosg::parallel_range<IntT>(fn, start, end, c.threads, progress);
+      IntT r = phosg::parallel_range<IntT>(fn, start, end, c.auto_threads ? 0 : c.threads, progress);
       ret_off = static_cast<uint64_t>(static_cast<U>(static_cast<U>(r) - static_cast<U>(start)));
     } else if (c.variant == 1) {
-      IntT r = phosg::parallel_range_blocks<IntT>(fn, start, end, static_cast<IntT>(c.block), c.threads, progress);
+      IntT r = phosg::parallel_range_blocks<IntT>(fn, start, end, static_cast<IntT>(c.block), c.auto_threads ? 0 : c.threads, progress);
       ret_off = static_cast<uint64_t>(static_cast<U>(static_cast<U>(r) - static_cast<U>(start)));
     } else {
-      auto r = phosg::parallel_range_blocks_multi<IntT>(fn, start, end, static_cast<IntT>(c.block), c.threads, progress);
+      auto r = phosg::parallel_range_blocks_multi<IntT>(fn, start, end, static_cast<IntT>(c.block), c.auto_threads ? 0 : c.threads, progress);
       for (IntT v : r) ret_set.push_back(static_cast<uint64_t>(static_cast<U>(static_cast<U>(v) - static_cast<U>(start))));
       std::sort(ret_set.begin(), ret_set.end());
     }
@@ -145,7 +146,12 @@ static void run_typed(const Cfg& c) {
 
 static void run_stress(const Case& k) {
   Cfg c{k.u(0), k.u(1), k.u(2), k.u(3), k.u(4), k.u(5), k.u(6), k.u(7), k.u(8), k.n.size() > 9 ? k.u(9) : 0, k.n.size() > 10 ? k.u(10) : 0, k.n.size() > 11 ? k.u(11) : 0};
-  if (c.variant > 2 || c.type > 4 || c.threads < 1 || c.threads > 16 || c.count > 2000000 || c.reps > 1000) throw std::logic_error("configuration outside the generated domain");
+  if (c.variant > 2 || c.type > 4 || c.threads > 16 || c.count > 2000000 || c.reps > 1000) throw std::logic_error("configuration outside the generated domain");
+  if (c.threads == 0) {
+    // automatic thread count: the callee uses std::thread::hardware_concurrency(); the logs are sized accordingly
+    c.auto_threads = 1;
+    c.threads = std::max(1u, std::thread::hardware_concurrency());
+  }
   if (c.count > 5000 && (c.variant == 0 || c.type < 2 || c.block < 1000)) throw std::logic_error("long ranges are generated only for the block variants with large blocks");
   if (c.big && (c.big > 4 || c.type < 3 || c.variant == 2 || c.block > 64 || c.block == 0 || c.hit_rem >= 4096)) throw std::logic_error("big-range configuration outside the generated domain");
   if (c.big) c.count = 0;
@@ -163,7 +169,7 @@ static Case gen_stress() {
   Cfg c;
   c.variant = vg::below(3);
   c.type = vg::below(5);
-  c.threads = vg::pick<uint64_t>({1, 2, 2, 3, 4, 8, 16});
+  c.threads = vg::pick<uint64_t>({1, 2, 2, 3, 4, 8, 16, 0});
   uint64_t maxcount = c.type == 0 ? 255 : 5000;
   switch (vg::below(3)) {
     case 0: c.count = vg::below(9); break;
